@@ -57,15 +57,16 @@ DEFS = {
 
 FUNCS = {"OFF": ([INT], INT)}
 AXIOMS = [
-    # definition of the index range of config c:  OFF(0) = len(main dataset), OFF(c+1) = OFF(c) + len(dataset c)
-    "OFF(0) == len(DataOf(self.main_sampler))",
-    "forall(lambda c: implies(0 <= c and c < NC, OFF(c + 1) == OFF(c) + len(DataOf(self.configs[c].sampler))))",
+    # index range of config c is [OFF(c+1), OFF(c+2)), of the main dataset [0, OFF(1)):
+    #   OFF(0) = 0, OFF(1) = len(main dataset), OFF(c+2) = OFF(c+1) + len(dataset of config c)
+    "OFF(0) == 0 and OFF(1) == len(DataOf(self.main_sampler))",
+    "forall(lambda c: implies(0 <= c and c < NC, OFF(c + 2) == OFF(c + 1) + len(DataOf(self.configs[c].sampler))))",
 ]
 
 # class invariant established by __init__ (proved there), required by every other method
 INV_K = [
     "1 <= B and B <= N",
-    "implies(DLB is not None, DL and val(DLB) == m_dlb * B and m_dlb >= 1 and val(DLB) <= N)",
+    "implies(DLB is not None, DL and val(DLB) % B == 0 and B <= val(DLB) and val(DLB) <= N)",
     "b2i(self.epochs is not None) + b2i(self.updates is not None) + b2i(self.samples is not None) == 1",
     "implies(self.epochs is not None, val(self.epochs) >= 0)",
     "implies(self.updates is not None, val(self.updates) >= 0)",
@@ -78,7 +79,7 @@ INV_K = [
     " (self.configs[c].every_n_epochs is not None or self.configs[c].every_n_updates is not None or "
     "  self.configs[c].every_n_samples is not None) and CLEN(c) >= 0))",
     "len(self.index_offsets) >= NC",
-    "forall(lambda c: implies(0 <= c and c < NC, self.index_offsets[c] == OFF(c)))",
+    "forall(lambda c: implies(0 <= c and c < NC, self.index_offsets[c] == OFF(c + 1)))",
 ]
 # C06: the checkpoint the constructor stores denotes an epoch boundary of the uninterrupted run
 INV_CKPT = [
@@ -100,7 +101,7 @@ PASS_ASSERTS = [
     # arithmetic lemma (isolated): successor of a residue
     H("(k + 1) % IBS(c) == (0 if k % IBS(c) + 1 == IBS(c) else k % IBS(c) + 1)", "IBS(c) >= 1", "k >= 0"),
     # the index is the k-th index of THIS iteration of config c's own sampler, shifted into c's index range
-    "value[1] == OFF(c) + SamplerElem(self.configs[c].sampler, g_pass_iter, k)",
+    "value[1] == OFF(c + 1) + SamplerElem(self.configs[c].sampler, g_pass_iter, k)",
     # batched by the config's (else the main) batch size with a short final batch
     "value[0] == ((k + 1) % IBS(c) == 0 or k + 1 == CLEN(c))",
     # no batch mixes datasets; a pass starts on a batch boundary
@@ -148,14 +149,16 @@ LINK = [  # code counters == spec counters
 
 TRAINING_LOOP = dict(
     target=f"{F}::InterleavedSampler._training_loop",
-    self=SELF, consts={"m_dlb": INT}, funcs=FUNCS, axioms=AXIOMS, defs=DEFS, ghost=GHOST,
-    let={"t_spe": "(N // D) * (D // B)"},
+    self=SELF, funcs=FUNCS, axioms=AXIOMS, defs=DEFS, ghost=GHOST,
+    let={"m_dlb": "val(DLB) // B", "t_spe": "(N // D) * (D // B)"},
     requires=INV_K + INV_CKPT + [
         # __iter__ dispatches here only for a non-zero budget; C04/C06 domain: checkpoint strictly before the budget
         "notstop(self.start_epoch, self.start_update, self.start_sample)",
     ],
     entry_ghost={"g_train_runs": "g_train_runs + 1"},
     lemmas=[
+        H("implies(DLB is not None, val(DLB) == m_dlb * B and m_dlb >= 1)",
+          "implies(DLB is not None, val(DLB) % B == 0 and B <= val(DLB))", "m_dlb == val(DLB) // B", "B >= 1"),
         "implies(DLB is not None, D == m_dlb * B and D // B == m_dlb)",
         "D >= B and D <= N and D >= 1",
         "N // D >= 1",
@@ -213,4 +216,102 @@ TRAINING_LOOP = dict(
     ],
 )
 
-CONTRACTS = [TRAINING_LOOP]
+
+# ----------------------------------------------------------------------------------------------------------
+# _eval_loop: zero budget -> exactly one full pass over every config and nothing else
+EVAL_LOOP = dict(
+    target=f"{F}::InterleavedSampler._eval_loop",
+    self=SELF, funcs=FUNCS, axioms=AXIOMS, defs=DEFS, ghost=GHOST,
+    requires=INV_K + ["g_open == 0"],
+    entry_ghost={"g_eval_runs": "g_eval_runs + 1", "g_done": "0"},
+    ghost_effects={"iter:*": ["g_iters"]},
+    loops={
+        0: dict(anchor="for config_idx, config in enumerate(self.configs)", index="c",
+                at_start={"g_k": "0"},
+                at_end=["g_k == CLEN(c)"],
+                at_end_ghost={"g_done": "g_done + 1"},
+                invariant=["g_done == c", "g_open == 0"]),
+        1: dict(anchor="for interleaved_idx in config.sampler", index="k",
+                before={"g_pass_iter": "g_iters - 1"},
+                invariant=["sample_in_interleaved == k", "g_k == k", "g_open == (0 if k == CLEN(c) else k % IBS(c))",
+                           "g_open == 0 or g_open_ds == c + 1", "g_done == c"]),
+    },
+    yields={
+        0: dict(anchor="yield (True, index_offset + interleaved_idx)", asserts=PASS_ASSERTS, ghost=PASS_GHOST),
+        1: dict(anchor="yield (False, index_offset + interleaved_idx)", asserts=PASS_ASSERTS, ghost=PASS_GHOST),
+    },
+    modifies_ghost=["g_eval_runs", "g_done", "g_k", "g_open", "g_open_ds", "g_iters", "g_pass_iter"],
+    ensures=["g_done == NC", "g_open == 0", "g_eval_runs == old(g_eval_runs) + 1", "g_train_runs == old(g_train_runs)"],
+)
+TRAINING_LOOP["modifies_ghost"] = list(GHOST.keys())
+TRAINING_LOOP["modifies"] = ["batch_size", "drop_last_batch_size"]
+TRAINING_LOOP["ensures"] += ["g_train_runs == old(g_train_runs) + 1", "g_eval_runs == old(g_eval_runs)"]
+
+# __iter__: zero budget -> the eval pass, else the training loop (whose requires must follow from the class invariant)
+ITER = dict(
+    target=f"{F}::InterleavedSampler.__iter__",
+    self=SELF, funcs=FUNCS, axioms=AXIOMS, defs=DEFS, ghost=GHOST,
+    requires=INV_K + INV_CKPT + [
+        # C04/C06 domain: a checkpoint strictly before a non-zero budget
+        "implies(not (self.epochs == 0 or self.updates == 0 or self.samples == 0),"
+        " notstop(self.start_epoch, self.start_update, self.start_sample))",
+    ],
+    asserts={0: "reject"},
+    yields={0: dict(anchor="self._eval_loop()", delegate=True), 1: dict(anchor="self._training_loop()", delegate=True)},
+    ensures=[
+        "implies(self.epochs == 0 or self.updates == 0 or self.samples == 0, g_eval_runs == 1 and g_train_runs == 0)",
+        "implies(not (self.epochs == 0 or self.updates == 0 or self.samples == 0), g_train_runs == 1 and g_eval_runs == 0)",
+        "g_open == 0",
+    ],
+)
+
+# ----------------------------------------------------------------------------------------------------------
+# constructor: establishes the class invariant, the index ranges, and (C06) a checkpoint on an epoch boundary
+DEFS_INIT = dict(DEFS, N=((), "len(main_sampler)"), B=((), "batch_size"), DL=((), "drop_last"),
+                 DLB=((), "drop_last_batch_size"))
+AXIOMS_INIT = [
+    "OFF(0) == 0 and OFF(1) == len(DataOf(main_sampler))",
+    "forall(lambda c: implies(configs is not None and 0 <= c and c < len(val(configs)), "
+    "OFF(c + 2) == OFF(c + 1) + len(DataOf(val(configs)[c].sampler))))",
+]
+INIT = dict(
+    target=f"{F}::InterleavedSampler.__init__",
+    self={}, funcs=FUNCS, axioms=AXIOMS_INIT, defs=DEFS_INIT,
+    params={"main_sampler": SAMPLER, "batch_size": INT, "configs": TOpt(TSeq(CFG, mutable=False)), "drop_last": BOOL,
+            "main_collator": TOpt(CALLABLE), "epochs": TOpt(INT), "updates": TOpt(INT), "samples": TOpt(INT),
+            "start_epoch": TOpt(INT), "start_update": TOpt(INT), "start_sample": TOpt(INT),
+            "drop_last_batch_size": TOpt(INT)},
+    requires=[
+        # C06 domain: a checkpoint is a non-negative epoch / update / sample count
+        "implies(start_epoch is not None, val(start_epoch) >= 0)",
+        "implies(start_update is not None, val(start_update) >= 0)",
+        "implies(start_sample is not None, val(start_sample) >= 0)",
+    ],
+    loops={
+        0: dict(anchor="for config in configs", index="c",
+                invariant=["forall(lambda t: implies(0 <= t and t < c, "
+                           " implies(configs[t].every_n_epochs is not None, val(configs[t].every_n_epochs) >= 1) and "
+                           " implies(configs[t].every_n_updates is not None, val(configs[t].every_n_updates) >= 1) and "
+                           " implies(configs[t].every_n_samples is not None, val(configs[t].every_n_samples) >= 1) and "
+                           " implies(configs[t].batch_size is not None, val(configs[t].batch_size) >= 1) and "
+                           " (configs[t].every_n_epochs is not None or configs[t].every_n_updates is not None or "
+                           "  configs[t].every_n_samples is not None)))"]),
+        1: dict(anchor="for config in self.configs[:-1]", index="c",
+                invariant=["len(self.index_offsets) == c + 1",
+                           "forall(lambda t: implies(0 <= t and t <= c, self.index_offsets[t] == OFF(t + 1)))"]),
+    },
+    post_inductions=[
+        # cumulative sizes of the concat dataset are the index ranges: cs[c] == OFF(c+1) for c in [0, NC]
+        ("c", "0", "NC", "self.dataset.cumulative_sizes[c] == OFF(c + 1)"),
+    ],
+    ensures=INV_K + INV_CKPT + [
+        "self.batch_size == batch_size and self.drop_last == drop_last",
+        "len(self.dataset.datasets) == NC + 1 and len(self.dataset.cumulative_sizes) == NC + 1",
+        "self.dataset.datasets[0] == DataOf(main_sampler)",
+        "forall(lambda c: implies(0 <= c and c < NC, self.dataset.datasets[c + 1] == DataOf(self.configs[c].sampler)))",
+        "forall(lambda c: implies(0 <= c and c <= NC, self.dataset.cumulative_sizes[c] == OFF(c + 1)))",
+        "len(self.collator.collators) == NC + 1",
+    ],
+)
+
+CONTRACTS = [TRAINING_LOOP, EVAL_LOOP, ITER, INIT]
